@@ -325,11 +325,29 @@ print(json.dumps(out))
 
 DATAMODEL_CHILD = r'''
 import ctypes, json, sys
+if sys.argv[1] == 'big-endian':
+    # a big-endian host (s390x, POWER): every struct format WITHOUT an explicit byte order ('@', '=' or none) reads big-endian
+    import struct as _st
+    def _fix(fmt):
+        if isinstance(fmt, bytes):
+            fmt = fmt.decode()
+        return fmt if fmt[:1] in '<>!' else '>' + fmt.lstrip('@=')
+    _o = {n: getattr(_st, n) for n in ('pack', 'unpack', 'unpack_from', 'iter_unpack', 'calcsize', 'pack_into', 'Struct')}
+    _st.pack = lambda fmt, *a: _o['pack'](_fix(fmt), *a)
+    _st.unpack = lambda fmt, b: _o['unpack'](_fix(fmt), b)
+    _st.unpack_from = lambda fmt, b, offset=0: _o['unpack_from'](_fix(fmt), b, offset)
+    _st.iter_unpack = lambda fmt, b: _o['iter_unpack'](_fix(fmt), b)
+    _st.calcsize = lambda fmt: _o['calcsize'](_fix(fmt))
+    _st.pack_into = lambda fmt, buf, off, *a: _o['pack_into'](_fix(fmt), buf, off, *a)
+    _st.Struct = lambda fmt: _o['Struct'](_fix(fmt))
+    sys.byteorder = 'big'
 if sys.argv[1] == 'llp64':
     # an LLP64 host (Windows): C long / unsigned long are 32 bits wide - in place BEFORE the library is imported
     ctypes.c_long, ctypes.c_ulong = ctypes.c_int32, ctypes.c_uint32
 from mc import ev as E
 from mc import domains as D
+from mc import build as B
+from pykdebugparser.kevent import from_kd_buf
 from pykdebugparser.traces_parser import TracesParser
 names = json.loads(sys.stdin.read())
 BASE_S = (0x1111, 0x2222, 0x3333, 0x4444)
@@ -352,7 +370,9 @@ for name in names:
     for sw, ew in cases:
         p = TracesParser(E.codes(), {}, {})
         try:
-            t = [t for t in p.feed_generator(E.restamp([E.ev(name, 1, sw), E.ev(name, 2, ew)]))]
+            # the records go through the library's own record decoder (bytes in, events out)
+            evs = [from_kd_buf(B.rec(1, sw, 1, E.n2i(name) | 1)), from_kd_buf(B.rec(2, ew, 1, E.n2i(name) | 2))]
+            t = [t for t in p.feed_generator(evs)]
             res.append([list(sw), list(ew), str(t[-1])])
         except Exception as ex:
             res.append([list(sw), list(ew), 'RAISED ' + type(ex).__name__])
@@ -371,7 +391,7 @@ def judge_c_data_model(names):
     import os
     got = {}
     # 'lp64@seedN': the same host with another string-hash seed (the interpreter's per-process randomisation)
-    for model in ('lp64', 'llp64', 'lp64@seed1', 'lp64@seed4242'):
+    for model in ('lp64', 'llp64', 'big-endian', 'lp64@seed1', 'lp64@seed4242'):
         env = dict(os.environ)
         if '@seed' in model:
             env['PYTHONHASHSEED'] = model.split('@seed')[1]
@@ -382,7 +402,7 @@ def judge_c_data_model(names):
     bad = []
     n = 0
     for name in names:
-        for other, what in (('llp64', 'c-data-model'), ('lp64@seed1', 'hash-seed-of-the-process'), ('lp64@seed4242', 'hash-seed-of-the-process')):
+        for other, what in (('llp64', 'c-data-model'), ('big-endian', 'byte-order-of-the-host'), ('lp64@seed1', 'hash-seed-of-the-process'), ('lp64@seed4242', 'hash-seed-of-the-process')):
             hit = False
             for a, b in zip(got['lp64'][name], got[other][name]):
                 n += 1
@@ -429,7 +449,7 @@ class C18(Check):
             'restored after each case. Inputs: every BSD decoder x END error word 0..255 and 9999; every BSD decoder x every numeric START position x value 0..64 (a word that a new code path looks up in a host table shows here); sigaction x signal 0..40; '
             'socket/socketpair/socket_delegate x family 0..45 x type 0..7; get/setsockopt x level {0,1,6,0xffff} x every declared '
             'SO_ option + 2 undeclared. Oracle: the rendered text (or the exception type) is identical under every configuration. '
-            'Plus the log / trace / event lines of one version-3 dump (log records near midnight) with the timezone option unset and set, under the host time zones UTC, EST5EDT, NZST-12NZDT, IST-5:30: identical. Plus every BSD decoder with words 2^31, 2^32+5, 2^63, 2^64-1 in each numeric START position and in the END return word, in two child interpreters, one of which has ctypes.c_long / c_ulong replaced by the 32-bit types before the library is imported (an LLP64 host), two more under other string-hash seeds (PYTHONHASHSEED): identical. Plus child interpreters started under three host locale settings (UTF-8 locale; C locale without coercion, i.e. ASCII file-system and default text encoding; POSIX with UTF-8 mode) formatting one dump with non-ASCII path / thread name / global string / process name and loading one UTF-8 code-table file: identical. Plus a static scan of every import in pykdebugparser/** against the list of host-dependent stdlib modules: anything '
+            'Plus the log / trace / event lines of one version-3 dump (log records near midnight) with the timezone option unset and set, under the host time zones UTC, EST5EDT, NZST-12NZDT, IST-5:30: identical. Plus every BSD decoder with words 2^31, 2^32+5, 2^63, 2^64-1 in each numeric START position and in the END return word, in two child interpreters, one of which has ctypes.c_long / c_ulong replaced by the 32-bit types before the library is imported (an LLP64 host), one whose struct module reads formats without an explicit byte order as big-endian (a big-endian host), two more under other string-hash seeds (PYTHONHASHSEED): identical. Plus child interpreters started under three host locale settings (UTF-8 locale; C locale without coercion, i.e. ASCII file-system and default text encoding; POSIX with UTF-8 mode) formatting one dump with non-ASCII path / thread name / global string / process name and loading one UTF-8 code-table file: identical. Plus a static scan of every import in pykdebugparser/** against the list of host-dependent stdlib modules: anything '
             'beyond the three modelled seams is a violation. states = configurations; transitions = renders; non-trivial = input '
             'whose rendering shows a host-table name under at least one configuration.')
     assumptions = ('the host is modelled by the interpreter tables the code imports today plus the import scan; a dependency through '
